@@ -51,6 +51,11 @@ func (o Op) Label() string {
 		return fmt.Sprintf("streamModack(%s,%s,%v)", o.Sub, o.Sel, o.D)
 	case "streamWait":
 		return fmt.Sprintf("streamWait(%s)", o.Sub)
+	case "pullWaitPub":
+		if o.Sel != "" {
+			return fmt.Sprintf("pullWaitPub(%s,%s,%v,extend-%s)", o.Sub, o.Topic, o.D, o.Sel)
+		}
+		return fmt.Sprintf("pullWaitPub(%s,%s,%v)", o.Sub, o.Topic, o.D)
 	case "updateTopic":
 		return fmt.Sprintf("%s(%s)", o.K, o.Topic)
 	case "modack":
@@ -283,6 +288,18 @@ func (m *Model) Prepare(op Op, now time.Time) (Call, bool) {
 		return c, true
 	case "streamWait":
 		return c, m.liveSub(op.Sub) != nil
+	case "pullWaitPub":
+		c.Payload = [][]byte{[]byte(fmt.Sprintf(`{"n":%d}`, m.NPub+1))}
+		c.MsgAttrs = []map[string]string{nil}
+		if s := m.liveSub(op.Sub); s != nil && op.Sel != "" {
+			// D/3 into the wait another client extends the leases it holds by 60 s
+			ids, ok := m.selectIDs(s, op.Sel)
+			if !ok {
+				return c, false
+			}
+			c.AckIDs = ids
+		}
+		return c, m.liveSub(op.Sub) != nil && m.liveTopic(op.Topic) != nil
 	case "stream":
 		s := m.liveSub(op.Sub)
 		if s == nil {
